@@ -89,6 +89,7 @@ class World:
         for fs in prog.framers:
             self.framers[fs.name] = RFramer(fs, self)
         self.assumed_away = False
+        self.events = []        # ('refused', framer, near, far) / ('refused-start', framer)
 
     # -- conditions ---------------------------------------------------------
     def cond(self, cond, framer=None):
@@ -249,6 +250,7 @@ class World:
                         return True
                 exits, enters, common = self.exen(nears, far)
                 if not self.check_enter(framer, enters, exits):
+                    self.events.append(("refused", framer.name, frame.name, far.name))
                     continue
                 self.log.append((framer.name, frame.name, "transit"))
                 self.exit_frames(framer, exits)
@@ -327,6 +329,7 @@ class World:
                     self.recur(framer)
                     framer.status = STARTED
                 else:
+                    self.events.append(("refused-start", framer.name))
                     framer.desire = STOP
                     framer.status = STOPPED
             elif st in (RUNNING, STARTED):
